@@ -1020,6 +1020,7 @@ def mk_exp(p):
     out = ONE
     for m, c in p.terms:
         if len(m) == 1 and m[0][1] == 1 and m[0][0].kind == "log" and c.denominator == 1:
+            side("pos", m[0][0].args[0], "exp(log t) = t")
             out = out * (m[0][0].args[0] ** int(c))
             continue
         if not m:
@@ -1034,27 +1035,27 @@ def mk_exp(p):
 
 
 def mk_log(p):
+    """log of a term.  Normal form: log(c * Π f_i^k_i * q) = log c + Σ k_i log|f_i| + log|q|
+    -- valid whenever the whole argument is positive (the one side condition
+    emitted); a ``log`` atom therefore denotes log|.|."""
     p = P(p)
     if p.is_zero():
         side("pos", p, "log of zero")
         return Poly.atom(Atom("log", (p,)))
+    if not p.is_const():
+        side("pos", p, "log argument")
     c, m, q = poly_content(p)
     out = ZERO
-    if c != 1:
-        if c > 0:
-            out = out + Poly.atom(Atom("log", (Poly.const(c),)))
-        else:
-            # log of something with negative leading coefficient: keep whole
-            side("pos", p, "log argument")
-            return Poly.atom(Atom("log", (p,)))
+    if abs(c) != 1:
+        out = out + Poly.atom(Atom("log", (Poly.const(abs(c)),)))
+    if c < 0 and p.is_const():
+        side("pos", p, "log of a negative constant")
     for a, pw in m:
         if a.kind == "exp":
             out = out + a.args[0] * pw
         else:
-            side("pos", Poly.atom(a), "log split")
             out = out + Poly.atom(Atom("log", (Poly.atom(a),))) * pw
     if not (q == ONE):
-        side("pos", q, "log argument")
         out = out + Poly.atom(Atom("log", (q,)))
     return out
 
@@ -1385,7 +1386,7 @@ def _evala(a, env, bvs):
     if k == "exp":
         return math.exp(evalf(a.args[0], env, bvs))
     if k == "log":
-        return math.log(evalf(a.args[0], env, bvs))
+        return math.log(abs(evalf(a.args[0], env, bvs)))
     if k == "sqrt":
         return math.sqrt(evalf(a.args[0], env, bvs))
     if k == "rcp":
